@@ -334,9 +334,14 @@ def canonical_branches(tree: ast.AST) -> ast.AST:
         shape is the canonical one"""
         while body and isinstance(body[-1], ast.If) and not body[-1].orelse and not (len(body[-1].body) == 1 and isinstance(body[-1].body[0], (ast.Continue, ast.Break, ast.Return, ast.Raise))):
             last = body[-1]
-            skip = ast.If(test=negate(last.test), body=[ast.copy_location(ast.Continue(), last)], orelse=[])
-            ast.copy_location(skip, last)
-            body = body[:-1] + [skip] + list(last.body)
+            # one guard per conjunct: `if A and B: rest` is `if not A: continue` / `if not B: continue` / rest (same short-circuit order)
+            conj = last.test.values if isinstance(last.test, ast.BoolOp) and isinstance(last.test.op, ast.And) \
+                and not any(isinstance(x, ast.NamedExpr) for x in ast.walk(last.test)) else [last.test]
+            skips = []
+            for c in conj:
+                skip = ast.If(test=negate(c), body=[ast.copy_location(ast.Continue(), last)], orelse=[])
+                skips.append(ast.copy_location(skip, last))
+            body = body[:-1] + skips + list(last.body)
         return body
 
     class _Guards(ast.NodeTransformer):
